@@ -280,3 +280,9 @@ def force_some(x, limit=6, depth=3):
             if i >= limit:
                 break
     return x
+
+
+def pick_list(xs, lo, hi, maxlen):
+    """Concrete copy of a symbolic int list (len <= maxlen, items in lo..hi): one path per value."""
+    n = pick(len(xs), 0, maxlen)
+    return [pick(xs[i], lo, hi) for i in range(n)]
